@@ -465,7 +465,7 @@ func Unary33() []U33 {
 		k := k
 		name := fmt.Sprintf("Cut3D[a=%v n=%v]", k.a, k.n)
 		out = append(out, U33{name, "Cut3D", func(c N3) N3 {
-			return wrap3(c, name, "Cut3D", RefSet, false, c.Lip,
+			return wrap3(c, name, "Cut3D", RefValue, false, c.Lip,
 				func(s sdf.SDF3) (sdf.SDF3, error) { return sdf.Cut3D(s, k.a, k.n), nil },
 				func(f Ev3, _ sdf.SDF3) Ev3 {
 					l := math.Sqrt(k.n.X*k.n.X + k.n.Y*k.n.Y + k.n.Z*k.n.Z)
@@ -675,7 +675,7 @@ func Unary22() []U22 {
 		k := k
 		name := fmt.Sprintf("Cut2D[a=%v v=%v]", k.a, k.v)
 		out = append(out, U22{name, "Cut2D", func(c N2) N2 {
-			return wrap2(c, name, "Cut2D", RefSet, false, c.Lip,
+			return wrap2(c, name, "Cut2D", RefValue, false, c.Lip,
 				func(s sdf.SDF2) (sdf.SDF2, error) { return sdf.Cut2D(s, k.a, k.v), nil },
 				func(f Ev2, _ sdf.SDF2) Ev2 {
 					l := math.Hypot(k.v.X, k.v.Y)
